@@ -15,6 +15,8 @@ re-statement of them.
 -/
 set_option linter.unusedSectionVars false
 set_option linter.unusedSimpArgs false
+set_option linter.unusedTactic false
+set_option linter.unreachableTactic false
 namespace OAS
 namespace C01AD
 open AD
@@ -244,6 +246,230 @@ theorem fuelVolDelta_exact (ny : ℕ) (sym : Bool) {v : ℕ → Dual ℝ} {fv : 
     Tracks (fuelVolDelta ny sym v fb rs rho) (fun s => fuelVolDelta ny sym (fun k => fv k s) (ffb s) (frs s) (frho s)) t := by
   have h2' : ((2 : ℕ) : ℝ) ≠ 0 := by norm_num
   cases sym <;> simp only [fuelVolDelta, Bool.false_eq_true, if_false, if_true] <;> track
+
+/-! ### VLMGeometry: widths, lengths, chords, normals, reference area -/
+
+theorem widths_exact (nx : ℕ) {m : Mesh (Dual ℝ)} {fm : ℝ → Mesh ℝ} (hm : ∀ i j, TracksV (m i j) (fun s => fm s i j) t)
+    (j : ℕ)
+    (h0 : 0 < (VLMGeometry.quarterChord nx (fm t) (j + 1) - VLMGeometry.quarterChord nx (fm t) j).y
+              * (VLMGeometry.quarterChord nx (fm t) (j + 1) - VLMGeometry.quarterChord nx (fm t) j).y
+            + (VLMGeometry.quarterChord nx (fm t) (j + 1) - VLMGeometry.quarterChord nx (fm t) j).z
+              * (VLMGeometry.quarterChord nx (fm t) (j + 1) - VLMGeometry.quarterChord nx (fm t) j).z) :
+    Tracks (VLMGeometry.widths nx m j) (fun s => VLMGeometry.widths nx (fm s) j) t := by
+  obtain ⟨hmx, hmy, hmz⟩ := TracksV.fam2 hm
+  simp only [VLMGeometry.widths, VLMGeometry.quarterChord]
+  v3norm; track
+
+theorem lengthsSpanwise_exact (nx : ℕ) {m : Mesh (Dual ℝ)} {fm : ℝ → Mesh ℝ}
+    (hm : ∀ i j, TracksV (m i j) (fun s => fm s i j) t) (j : ℕ)
+    (h0 : 0 < V3.normSq (VLMGeometry.quarterChord nx (fm t) (j + 1) - VLMGeometry.quarterChord nx (fm t) j)) :
+    Tracks (VLMGeometry.lengthsSpanwise nx m j) (fun s => VLMGeometry.lengthsSpanwise nx (fm s) j) t := by
+  obtain ⟨hmx, hmy, hmz⟩ := TracksV.fam2 hm
+  simp only [VLMGeometry.lengthsSpanwise, VLMGeometry.quarterChord]
+  v3norm; track
+
+theorem lengths_exact (nx : ℕ) {m : Mesh (Dual ℝ)} {fm : ℝ → Mesh ℝ} (hm : ∀ i j, TracksV (m i j) (fun s => fm s i j) t)
+    (j : ℕ) (h0 : ∀ i, i < nx - 1 → 0 < V3.normSq (fm t (i + 1) j - fm t i j)) :
+    Tracks (VLMGeometry.lengths nx m j) (fun s => VLMGeometry.lengths nx (fm s) j) t := by
+  obtain ⟨hmx, hmy, hmz⟩ := TracksV.fam2 hm
+  simp only [VLMGeometry.lengths]
+  refine Tracks.sumTo _ _ _ ?_
+  intro i hi
+  have := h0 i hi
+  v3norm; track
+
+theorem chords_exact (nx : ℕ) {m : Mesh (Dual ℝ)} {fm : ℝ → Mesh ℝ} (hm : ∀ i j, TracksV (m i j) (fun s => fm s i j) t)
+    (j : ℕ) (h0 : 0 < V3.normSq (fm t 0 j - fm t (nx - 1) j)) :
+    Tracks (VLMGeometry.chords nx m j) (fun s => VLMGeometry.chords nx (fm s) j) t := by
+  obtain ⟨hmx, hmy, hmz⟩ := TracksV.fam2 hm
+  simp only [VLMGeometry.chords]
+  v3norm; track
+
+/-- unit panel normals (cross product of the diagonals, normalised) -/
+theorem normals_exact {m : Mesh (Dual ℝ)} {fm : ℝ → Mesh ℝ} (hm : ∀ i j, TracksV (m i j) (fun s => fm s i j) t)
+    (i j : ℕ) (h0 : 0 < V3.normSq (VLMGeometry.rawNormal (fm t) i j)) :
+    TracksV (VLMGeometry.normals m i j) (fun s => VLMGeometry.normals (fm s) i j) t := by
+  obtain ⟨hmx, hmy, hmz⟩ := TracksV.fam2 hm
+  have hne : Real.sqrt ((VLMGeometry.rawNormal (fm t) i j).x * (VLMGeometry.rawNormal (fm t) i j).x + (VLMGeometry.rawNormal (fm t) i j).y * (VLMGeometry.rawNormal (fm t) i j).y + (VLMGeometry.rawNormal (fm t) i j).z * (VLMGeometry.rawNormal (fm t) i j).z) ≠ 0 := (Real.sqrt_pos.mpr h0).ne'
+  refine ⟨?_, ?_, ?_⟩ <;> simp only [VLMGeometry.normals, VLMGeometry.rawNormal] <;> v3norm <;> track
+
+/-- wetted reference area (`S_ref_type = 'wetted'`), any `nx`, `ny` -/
+theorem sRef_wetted_exact (nx ny : ℕ) (sym : Bool) {m : Mesh (Dual ℝ)} {fm : ℝ → Mesh ℝ}
+    (hm : ∀ i j, TracksV (m i j) (fun s => fm s i j) t)
+    (h0 : ∀ i j, i < nx - 1 → j < ny - 1 → 0 < V3.normSq (VLMGeometry.rawNormal (fm t) i j)) :
+    Tracks (VLMGeometry.sRef nx ny sym false m) (fun s => VLMGeometry.sRef nx ny sym false (fm s)) t := by
+  obtain ⟨hmx, hmy, hmz⟩ := TracksV.fam2 hm
+  have hs : Tracks (dec 1 2 * sumTo (nx - 1) (fun i => sumTo (ny - 1) (fun j => V3.norm (VLMGeometry.rawNormal m i j))))
+      (fun s => dec 1 2 * sumTo (nx - 1) (fun i => sumTo (ny - 1) (fun j => V3.norm (VLMGeometry.rawNormal (fm s) i j)))) t := by
+    apply Tracks.mul (Tracks.dec 1 2)
+    refine Tracks.sumTo _ _ _ ?_
+    intro i hi
+    refine Tracks.sumTo _ _ _ ?_
+    intro j hj
+    have := h0 i j hi hj
+    simp only [VLMGeometry.rawNormal]
+    v3norm; track
+  simp only [VLMGeometry.sRef, Bool.false_eq_true, if_false]
+  cases sym
+  · exact hs
+  · exact hs.mul (Tracks.natCast 2)
+
+/-! ### LiftDrag, LiftCoeff2D -/
+
+theorem liftDrag_exact (np : ℕ) (sym : Bool) {al be : Dual ℝ} {fa fb : ℝ → ℝ} {F : ℕ → V3 (Dual ℝ)} {fF : ℝ → ℕ → V3 ℝ}
+    (ha : Tracks al fa t) (hb : Tracks be fb t) (hF : ∀ k, TracksV (F k) (fun s => fF s k) t) :
+    Tracks (liftDrag np sym al be F).1 (fun s => (liftDrag np sym (fa s) (fb s) (fF s)).1) t ∧
+    Tracks (liftDrag np sym al be F).2 (fun s => (liftDrag np sym (fa s) (fb s) (fF s)).2) t := by
+  obtain ⟨hFx, hFy, hFz⟩ := TracksV.fam1 hF
+  have h180 : ((180 : ℕ) : ℝ) ≠ 0 := by norm_num
+  cases sym <;> refine ⟨?_, ?_⟩ <;> simp only [liftDrag, deg2rad, Bool.false_eq_true, if_false, if_true] <;> track
+
+theorem liftCoeff2D_exact (nx : ℕ) {al rho v : Dual ℝ} {fa fr fv : ℝ → ℝ} {F : ℕ → ℕ → V3 (Dual ℝ)}
+    {fF : ℝ → ℕ → ℕ → V3 ℝ} {w c : ℕ → Dual ℝ} {fw fc : ℕ → ℝ → ℝ}
+    (ha : Tracks al fa t) (hr : Tracks rho fr t) (hv : Tracks v fv t) (hF : ∀ i j, TracksV (F i j) (fun s => fF s i j) t)
+    (hw : ∀ j, Tracks (w j) (fw j) t) (hc : ∀ j, Tracks (c j) (fc j) t) (j : ℕ) (h1 : fw j t ≠ 0)
+    (h2 : dec 1 2 * fr t * (fv t * fv t) * (dec 1 2 * (fc (j + 1) t + fc j t)) ≠ 0) :
+    Tracks (liftCoeff2D nx al rho v F w c j)
+      (fun s => liftCoeff2D nx (fa s) (fr s) (fv s) (fF s) (fun k => fw k s) (fun k => fc k s) j) t := by
+  obtain ⟨hFx, hFy, hFz⟩ := TracksV.fam2 hF
+  have h180 : ((180 : ℕ) : ℝ) ≠ 0 := by norm_num
+  simp only [liftCoeff2D, deg2rad]; v3norm; track
+
+/-! ### WaveDrag: crest-critical Mach number and the two sides of the drag-divergence branch -/
+
+theorem mcrit_exact (ny : ℕ) (ka : ℝ) {CL : Dual ℝ} {fCL : ℝ → ℝ} {toc w l c : ℕ → Dual ℝ} {ft fw fl fc : ℕ → ℝ → ℝ}
+    (hCL : Tracks CL fCL t) (ht : ∀ j, Tracks (toc j) (ft j) t) (hw : ∀ j, Tracks (w j) (fw j) t)
+    (hl : ∀ j, Tracks (l j) (fl j) t) (hc : ∀ j, Tracks (c j) (fc j) t)
+    (hl0 : ∀ j, j < ny - 1 → fl j t ≠ 0)
+    (hA : sumTo (ny - 1) (WaveDrag.panelArea (fun k => fc k t) (fun k => fw k t)) ≠ 0)
+    (hcos : sumTo (ny - 1) (fun j => fw j t / fl j t * WaveDrag.panelArea (fun k => fc k t) (fun k => fw k t) j)
+              / sumTo (ny - 1) (WaveDrag.panelArea (fun k => fc k t) (fun k => fw k t)) ≠ 0) :
+    Tracks (WaveDrag.mcrit ny (⟨ka, 0⟩ : Dual ℝ) CL toc w l c)
+      (fun s => WaveDrag.mcrit ny ka (fCL s) (fun k => ft k s) (fun k => fw k s) (fun k => fl k s) (fun k => fc k s)) t := by
+  have h2 : ((2 : ℕ) : ℝ) ≠ 0 := by norm_num
+  have h3 : ((3 : ℕ) : ℝ) ≠ 0 := by norm_num
+  have h10 : ((10 : ℕ) : ℝ) ≠ 0 := by norm_num
+  have h80 : ((80 : ℕ) : ℝ) ≠ 0 := by norm_num
+  have hp : (0 : ℝ) < dec 1 10 / ((80 : ℕ) : ℝ) := by simp [dec_def]
+  simp only [WaveDrag.mcrit, WaveDrag.panelArea] at hA hcos ⊢
+  have hcos2 := mul_ne_zero hcos hcos
+  have hcos3 := mul_ne_zero hcos2 hcos
+  have hcos10 := mul_ne_zero h10 hcos3
+  track
+  all_goals first | exact hl0 _ ‹_› | assumption
+
+/-- wave drag above the crest-critical Mach number (`M > Mcrit`: the `20 (M − Mcrit)⁴` branch) … -/
+theorem cdw_above_exact (ny : ℕ) (sym : Bool) (ka : ℝ) {M CL : Dual ℝ} {fM fCL : ℝ → ℝ} {toc w l c : ℕ → Dual ℝ}
+    {ft fw fl fc : ℕ → ℝ → ℝ} (hM : Tracks M fM t)
+    (hmc : Tracks (WaveDrag.mcrit ny (⟨ka, 0⟩ : Dual ℝ) CL toc w l c)
+      (fun s => WaveDrag.mcrit ny ka (fCL s) (fun k => ft k s) (fun k => fw k s) (fun k => fl k s) (fun k => fc k s)) t)
+    (habove : WaveDrag.mcrit ny ka (fCL t) (fun k => ft k t) (fun k => fw k t) (fun k => fl k t) (fun k => fc k t) < fM t) :
+    Tracks (WaveDrag.cdw ny true sym (⟨ka, 0⟩ : Dual ℝ) M CL toc w l c)
+      (fun s => WaveDrag.cdw ny true sym ka (fM s) (fCL s) (fun k => ft k s) (fun k => fw k s) (fun k => fl k s) (fun k => fc k s)) t := by
+  have hd := hM.sub hmc
+  have hbr := Tracks.ite_lt_pos (d := (0 : Dual ℝ)) (G := fun _ => (0 : ℝ)) hmc hM habove
+    ((Tracks.natCast 20).mul (((hd.mul hd).mul hd).mul hd))
+  cases sym
+  · simpa only [WaveDrag.cdw, if_true, Bool.false_eq_true, if_false] using hbr
+  · simpa only [WaveDrag.cdw, if_true] using hbr.mul (Tracks.natCast 2)
+
+/-- … and below it (`M < Mcrit`: identically zero, with zero derivative – the partials the code must *reset*, C03) -/
+theorem cdw_below_exact (ny : ℕ) (sym : Bool) (ka : ℝ) {M CL : Dual ℝ} {fM fCL : ℝ → ℝ} {toc w l c : ℕ → Dual ℝ}
+    {ft fw fl fc : ℕ → ℝ → ℝ} (hM : Tracks M fM t)
+    (hmc : Tracks (WaveDrag.mcrit ny (⟨ka, 0⟩ : Dual ℝ) CL toc w l c)
+      (fun s => WaveDrag.mcrit ny ka (fCL s) (fun k => ft k s) (fun k => fw k s) (fun k => fl k s) (fun k => fc k s)) t)
+    (hbelow : fM t < WaveDrag.mcrit ny ka (fCL t) (fun k => ft k t) (fun k => fw k t) (fun k => fl k t) (fun k => fc k t)) :
+    Tracks (WaveDrag.cdw ny true sym (⟨ka, 0⟩ : Dual ℝ) M CL toc w l c)
+      (fun s => WaveDrag.cdw ny true sym ka (fM s) (fCL s) (fun k => ft k s) (fun k => fw k s) (fun k => fl k s) (fun k => fc k s)) t := by
+  have hbr := Tracks.ite_lt_neg
+    (c := ((20 : ℕ) : Dual ℝ) * ((M - WaveDrag.mcrit ny (⟨ka, 0⟩ : Dual ℝ) CL toc w l c) * (M - WaveDrag.mcrit ny (⟨ka, 0⟩ : Dual ℝ) CL toc w l c)
+        * (M - WaveDrag.mcrit ny (⟨ka, 0⟩ : Dual ℝ) CL toc w l c) * (M - WaveDrag.mcrit ny (⟨ka, 0⟩ : Dual ℝ) CL toc w l c)))
+    (F := fun s => ((20 : ℕ) : ℝ) * ((fM s - WaveDrag.mcrit ny ka (fCL s) (fun k => ft k s) (fun k => fw k s) (fun k => fl k s) (fun k => fc k s))
+        * (fM s - WaveDrag.mcrit ny ka (fCL s) (fun k => ft k s) (fun k => fw k s) (fun k => fl k s) (fun k => fc k s))
+        * (fM s - WaveDrag.mcrit ny ka (fCL s) (fun k => ft k s) (fun k => fw k s) (fun k => fl k s) (fun k => fc k s))
+        * (fM s - WaveDrag.mcrit ny ka (fCL s) (fun k => ft k s) (fun k => fw k s) (fun k => fl k s) (fun k => fc k s))))
+    hmc hM hbelow (Tracks.zero)
+  cases sym
+  · simpa only [WaveDrag.cdw, if_true, Bool.false_eq_true, if_false] using hbr
+  · simpa only [WaveDrag.cdw, if_true] using hbr.mul (Tracks.natCast 2)
+
+/-! ### functionals -/
+
+theorem totalLiftDrag_exact (ns : ℕ) {CL CD S : ℕ → Dual ℝ} {fCL fCD fS : ℕ → ℝ → ℝ} {rho v St : Dual ℝ} {fr fv fSt : ℝ → ℝ}
+    (h1 : ∀ k, Tracks (CL k) (fCL k) t) (h2 : ∀ k, Tracks (CD k) (fCD k) t) (h3 : ∀ k, Tracks (S k) (fS k) t)
+    (hr : Tracks rho fr t) (hv : Tracks v fv t) (hS : Tracks St fSt t) (h0 : fSt t ≠ 0) :
+    Tracks (totalLiftDrag ns CL CD S rho v St).1 (fun s => (totalLiftDrag ns (fun k => fCL k s) (fun k => fCD k s) (fun k => fS k s) (fr s) (fv s) (fSt s)).1) t ∧
+    Tracks (totalLiftDrag ns CL CD S rho v St).2.1 (fun s => (totalLiftDrag ns (fun k => fCL k s) (fun k => fCD k s) (fun k => fS k s) (fr s) (fv s) (fSt s)).2.1) t ∧
+    Tracks (totalLiftDrag ns CL CD S rho v St).2.2.1 (fun s => (totalLiftDrag ns (fun k => fCL k s) (fun k => fCD k s) (fun k => fS k s) (fr s) (fv s) (fSt s)).2.2.1) t ∧
+    Tracks (totalLiftDrag ns CL CD S rho v St).2.2.2 (fun s => (totalLiftDrag ns (fun k => fCL k s) (fun k => fCD k s) (fun k => fS k s) (fr s) (fv s) (fSt s)).2.2.2) t := by
+  refine ⟨?_, ?_, ?_, ?_⟩ <;> simp only [totalLiftDrag] <;> track
+
+theorem equilibrium_exact (ns : ℕ) {sm : ℕ → Dual ℝ} {fsm : ℕ → ℝ → ℝ} {fb W0 lf CL St v rho : Dual ℝ}
+    {ffb fW0 flf fCL fSt fv fr : ℝ → ℝ} (hsm : ∀ k, Tracks (sm k) (fsm k) t) (h1 : Tracks fb ffb t) (h2 : Tracks W0 fW0 t)
+    (h3 : Tracks lf flf t) (h4 : Tracks CL fCL t) (h5 : Tracks St fSt t) (h6 : Tracks v fv t) (h7 : Tracks rho fr t)
+    (h0 : (sumTo ns (fun k => fsm k t) + ffb t + fW0 t) * (gravConstant * flf t) ≠ 0) :
+    Tracks (equilibrium ns sm fb W0 lf CL St v rho).1
+      (fun s => (equilibrium ns (fun k => fsm k s) (ffb s) (fW0 s) (flf s) (fCL s) (fSt s) (fv s) (fr s)).1) t ∧
+    Tracks (equilibrium ns sm fb W0 lf CL St v rho).2
+      (fun s => (equilibrium ns (fun k => fsm k s) (ffb s) (fW0 s) (flf s) (fCL s) (fSt s) (fv s) (fr s)).2) t := by
+  refine ⟨?_, ?_⟩ <;> simp only [equilibrium, gravConstant] <;> track
+
+theorem centerOfGravity_exact (ns : ℕ) {sm : ℕ → Dual ℝ} {fsm : ℕ → ℝ → ℝ} {cg : ℕ → V3 (Dual ℝ)} {fcg : ℝ → ℕ → V3 ℝ}
+    {tw fb W0 lf : Dual ℝ} {ftw ffb fW0 flf : ℝ → ℝ} {ec : V3 (Dual ℝ)} {fec : ℝ → V3 ℝ}
+    (hsm : ∀ k, Tracks (sm k) (fsm k) t) (hcg : ∀ k, TracksV (cg k) (fun s => fcg s k) t)
+    (h1 : Tracks tw ftw t) (h2 : Tracks fb ffb t) (h3 : Tracks W0 fW0 t) (h4 : Tracks lf flf t) (hec : TracksV ec fec t)
+    (hg : gravConstant * flf t ≠ 0) (hd : ftw t / (gravConstant * flf t) - ffb t ≠ 0) :
+    TracksV (centerOfGravity ns sm cg tw fb W0 lf ec)
+      (fun s => centerOfGravity ns (fun k => fsm k s) (fcg s) (ftw s) (ffb s) (fW0 s) (flf s) (fec s)) t := by
+  obtain ⟨hcx, hcy, hcz⟩ := TracksV.fam1 hcg
+  have hex := hec.x; have hey := hec.y; have hez := hec.z
+  refine ⟨?_, ?_, ?_⟩ <;> simp only [centerOfGravity, gravConstant] at hg hd ⊢ <;> v3norm <;> track
+
+/-! ### stress post-processing, section properties, energy -/
+
+theorem failureExact_exact (sigma : ℝ) {vm : Dual ℝ} {fvm : ℝ → ℝ} (h : Tracks vm fvm t) (h0 : sigma ≠ 0) :
+    Tracks (failureExact (⟨sigma, 0⟩ : Dual ℝ) vm) (fun s => failureExact sigma (fvm s)) t := by
+  simp only [failureExact]; track
+
+theorem energy_exact (n : ℕ) {d l : ℕ → Dual ℝ} {fd fl : ℕ → ℝ → ℝ} (hd : ∀ k, Tracks (d k) (fd k) t)
+    (hl : ∀ k, Tracks (l k) (fl k) t) :
+    Tracks (energy n d l) (fun s => energy n (fun k => fd k s) (fun k => fl k s)) t := by
+  simp only [energy]; track
+
+theorem sectionPropertiesTube_exact {r th : Dual ℝ} {fr fth : ℝ → ℝ} (hr : Tracks r fr t) (hth : Tracks th fth t) :
+    Tracks (sectionPropertiesTube r th).1 (fun s => (sectionPropertiesTube (fr s) (fth s)).1) t ∧
+    Tracks (sectionPropertiesTube r th).2.1 (fun s => (sectionPropertiesTube (fr s) (fth s)).2.1) t ∧
+    Tracks (sectionPropertiesTube r th).2.2.1 (fun s => (sectionPropertiesTube (fr s) (fth s)).2.2.1) t ∧
+    Tracks (sectionPropertiesTube r th).2.2.2 (fun s => (sectionPropertiesTube (fr s) (fth s)).2.2.2) t := by
+  have h2 : ((2 : ℕ) : ℝ) ≠ 0 := by norm_num
+  have h4 : ((4 : ℕ) : ℝ) ≠ 0 := by norm_num
+  refine ⟨?_, ?_, ?_, ?_⟩ <;> simp only [sectionPropertiesTube] <;> track
+
+/-! ### Prandtl–Glauert rotations and scalings -/
+
+theorem toWind_exact {a b : Dual ℝ} {fa fb : ℝ → ℝ} {v : V3 (Dual ℝ)} {fv : ℝ → V3 ℝ} (ha : Tracks a fa t)
+    (hb : Tracks b fb t) (hv : TracksV v fv t) :
+    TracksV (PG.toWind a b v) (fun s => PG.toWind (fa s) (fb s) (fv s)) t := by
+  have hx := hv.x; have hy := hv.y; have hz := hv.z
+  refine ⟨?_, ?_, ?_⟩ <;> simp only [PG.toWind, PG.tw, M3.mulVec] <;> track
+
+theorem fromWind_exact {a b : Dual ℝ} {fa fb : ℝ → ℝ} {v : V3 (Dual ℝ)} {fv : ℝ → V3 ℝ} (ha : Tracks a fa t)
+    (hb : Tracks b fb t) (hv : TracksV v fv t) :
+    TracksV (PG.fromWind a b v) (fun s => PG.fromWind (fa s) (fb s) (fv s)) t := by
+  have hx := hv.x; have hy := hv.y; have hz := hv.z
+  refine ⟨?_, ?_, ?_⟩ <;> simp only [PG.fromWind, PG.transpose, PG.tw, M3.mulVec] <;> track
+
+theorem betaPG_exact {M : Dual ℝ} {fM : ℝ → ℝ} (hM : Tracks M fM t) (h0 : 0 < 1 - fM t * fM t) :
+    Tracks (PG.betaPG M) (fun s => PG.betaPG (fM s)) t := by
+  simp only [PG.betaPG]; track
+
+theorem unscaleForce_exact {B : Dual ℝ} {fB : ℝ → ℝ} {v : V3 (Dual ℝ)} {fv : ℝ → V3 ℝ} (hB : Tracks B fB t)
+    (hv : TracksV v fv t) (h0 : fB t ≠ 0) :
+    TracksV (PG.unscaleForce B v) (fun s => PG.unscaleForce (fB s) (fv s)) t := by
+  have hx := hv.x; have hy := hv.y; have hz := hv.z
+  have h3 := mul_ne_zero (mul_ne_zero h0 h0) h0
+  have h4 := mul_ne_zero h3 h0
+  refine ⟨?_, ?_, ?_⟩ <;> simp only [PG.unscaleForce] <;> track
 
 end C01AD
 end OAS
